@@ -240,6 +240,7 @@ package s2
 //@   requires s != nil && vcIdx(s.index) && vcValid(target)
 //@   modifies s.position, s.id, s.cell
 //@   ensures [at] vcIterAt(s)
+//@   ensures [one-of-three] result == Indexed || result == Subdivided || result == Disjoint
 //@   ensures [indexed] result == Indexed ==> s.position < len(s.index.cells) && s.index.cells[s.position].Contains(target)
 //@   ensures [subdivided] result == Subdivided ==> s.position < len(s.index.cells) && target.Contains(s.index.cells[s.position]) && target != s.index.cells[s.position]
 //@   ensures [disjoint] result == Disjoint ==> (forall k int :: 0 <= k && k < len(s.index.cells) ==> !s.index.cells[k].Intersects(target))
